@@ -229,6 +229,16 @@ Definition crash_create_recovers_ok (c : case) : bool :=
                       let tf := etime e + stale_span in recovered_by c (tf - 1) (tf + pre_bound)
                     else true) (cevents c).
 
+(** a pre-made lock file that is NOT yet stale - its Updated stamp (Created when there is none), or
+    for an empty / undecodable file its modification time, is younger than the staleness span - is
+    the lock of a holder that must be presumed alive, however old its Created stamp is: nobody may
+    obtain the lock before the file has become stale *)
+Definition fresh_prefile_respected (c : case) : bool :=
+  match pre_free_at c with
+  | None => true
+  | Some tf => forallb (fun o => negb ((oout o =? 0) && (otime o <? tf - 100000000))) (cobs c)
+  end.
+
 Definition cancel_ok (c : case) : bool :=
   forallb (fun e =>
     if ekind e =? 3 then
@@ -273,7 +283,8 @@ Definition free_ok (c : case) : bool :=
   end.
 
 Definition spec_ok (c : case) : bool :=
-  mutex_ok c && recovers_ok c && prefile_recovers_ok c && crash_create_recovers_ok c && cancel_ok c && free_ok c.
+  mutex_ok c && recovers_ok c && prefile_recovers_ok c && crash_create_recovers_ok c && cancel_ok c && free_ok c &&
+  fresh_prefile_respected c.
 
 (** ** "distinct names never block each other": cases of kind 1
 
